@@ -63,6 +63,8 @@ structure Field where
   wt : Nat
   /-- the bytes of the field: tag and value -/
   raw : Bytes
+  /-- the value of a length-delimited field (wire type 2) without its length; empty otherwise -/
+  payload : Bytes := []
   deriving Repr
 
 /-- the top-level fields of a message -/
@@ -79,7 +81,9 @@ def walk : Nat → Bytes → Option (List Field)
       | some rest =>
         match walk fuel rest with
         | none => none
-        | some fs => some ({ num := num, wt := wt, raw := b.take (b.length - rest.length) } :: fs)
+        | some fs =>
+          let payload := if wt == 2 then (match consumeVarint r with | some (l, r2) => r2.take l | none => []) else []
+          some ({ num := num, wt := wt, raw := b.take (b.length - rest.length), payload := payload } :: fs)
 
 def fields (b : Bytes) : Option (List Field) := walk (b.length + 1) b
 
@@ -108,5 +112,76 @@ def strictTop (k : Known) (b : Bytes) : Outcome :=
     match unknownFields k fs with
     | [] => .ok
     | f :: _ => .unknown f.num f.wt
+
+/-! ## nested messages (the repaired `StrictProtoCodec`: `findUnrecognized`)
+
+After the repair the codec also looks into nested messages: singular and repeated message
+fields and map values, recursively (`google.protobuf.Any` is a message with a string and a
+bytes field: its `value` is opaque).  The message type is described by a list of field tables
+regenerated from the descriptor, one per message type reachable from the root (index 0); a field
+entry of kind `message` names the table of its message type (so recursive types are finite).
+A map field is a repeated field of entry messages (`key` = 1, `value` = 2); the protobuf library
+*skips* other field numbers inside a map entry, hence the entry's table is `lenient`. -/
+
+structure Entry where
+  num : Nat
+  /-- the wire types the field accepts -/
+  wts : List Nat
+  /-- the field holds a message (singular, repeated, or a map entry) described by table `sub` -/
+  isMessage : Bool
+  sub : Nat
+  deriving Repr
+
+structure Table where
+  /-- unknown field numbers are skipped, not kept (map entries) -/
+  lenient : Bool
+  entries : List Entry
+  deriving Repr
+
+abbrev Tables := List Table
+
+def entryFor (t : Table) (f : Field) : Option Entry :=
+  t.entries.find? (fun e => e.num == f.num && e.wts.contains f.wt)
+
+def knownIn (t : Table) (f : Field) : Bool := (entryFor t f).isSome
+
+/-- the table and bytes to descend into for a field, if it holds a message -/
+def descend (t : Table) (f : Field) : Option (Nat × Bytes) :=
+  match entryFor t f with
+  | some e => if e.isMessage && f.wt == 2 then some (e.sub, f.payload) else none
+  | none => none
+
+/-- the unknown fields of the nested messages held by the given fields, in wire order -/
+def nestedUnknowns (rec : Nat → Bytes → Option (List (Nat × Nat))) (t : Table) :
+    List Field → Option (List (Nat × Nat))
+  | [] => some []
+  | f :: rest =>
+    match descend t f with
+    | none => nestedUnknowns rec t rest
+    | some (sub, payload) =>
+      match rec sub payload, nestedUnknowns rec t rest with
+      | some a, some b => some (a ++ b)
+      | _, _ => none
+
+/-- every unknown field (number, wire type) of the message of table `ti` encoded by `b`: its own
+first (what `GetUnknown` holds), then those of its nested messages; `none`: the wire is malformed
+at some depth -/
+def unknownsIn : Nat → Tables → Nat → Bytes → Option (List (Nat × Nat))
+  | 0, _, _, _ => none
+  | fuel + 1, T, ti, b =>
+    match T[ti]?, fields b with
+    | some t, some fs =>
+      let own := if t.lenient then [] else (fs.filter (fun f => !knownIn t f)).map (fun f => (f.num, f.wt))
+      match nestedUnknowns (unknownsIn fuel T) t fs with
+      | some ns => some (own ++ ns)
+      | none => none
+    | _, _ => none
+
+/-- `StrictProtoCodec.Unmarshal` after the repair, as far as the wire goes -/
+def strictDeep (T : Tables) (b : Bytes) : Outcome :=
+  match unknownsIn (b.length + 2) T 0 b with
+  | none => .malformed
+  | some [] => .ok
+  | some ((num, wt) :: _) => .unknown num wt
 
 end ConfModel.ProtoWire
